@@ -98,3 +98,9 @@ def run(db, ctx):
     from . import C07
     common.shared_rule(db, ctx, C07.block_maximum, 'R2.9', 'the block maximum that gates the 8-bit pre-filter covers every row and every column of the block '
                        '(AVX2 max kernel: identity, row range, lane coverage, final reduction; generic: argmax scan over all cells) — shared with R7.1 / R7.4', ['R7.1', 'R7.4'])
+    # the scanner scores through the 8-bit kernels, which read the look-ahead rows, and maps a cell back to a position with
+    # rows() - wrap(): both rest on configure / configure_wrap keeping their bookkeeping (seeds C02-6, C03-6 broke it for a second configure)
+    from . import C04
+    common.shared_rule(db, ctx, C04.lookahead_rules, 'R2.10', 'the look-ahead rows and the row count the scanner relies on: configure_wrap computes R = rows - wrap before '
+                       'resizing, resizes to rows + m - wrap, copies cell(R+i, j) := cell(i, j+1) for every i < m, sets wrap := m; configure(motif) = configure_wrap(len - 1) '
+                       'for every non-empty motif (shared with R4.5 / R4.8)', ['R4.5', 'R4.8'])
